@@ -171,6 +171,12 @@ def run(ctx, ck):
                         okchain = False
             prev = mats.get(key_, kind_)
             mats[key_] = kind_ if (okchain and prev == kind_) else None
+    # (decided before the per-axis literal: a matrix assembled in a loop over the axes must start fresh each time)
+    ck.rule('R-FRESH.loop-scratch', 'an array bound before a loop is not partly overwritten per iteration and read whole inside the loop')
+    from ..rules import check_loop_scratch
+    check_loop_scratch(ctx, ck, 'R-FRESH.loop-scratch', modules=('mininec',))
+    if any(not o.ok for o in ck.obs if o.rule == "R-FRESH.loop-scratch"):
+        return
     ck.floor('axis rotation blocks', sum(1 for K in range(3) if axis_seen[K]), 3)
     for K in range(3):
         ck.ob('R-LIT.rotation', 'axis%s|matrix' % K, axis_bad[K] is None, f.loc(axis_bad[K][1]) if axis_bad[K] and axis_bad[K][1] is not None else f.loc(),
